@@ -176,6 +176,16 @@ pub fn run(a: &Args) {
             }
             io_de(&mut out, &s, &m, sched(&mut r), None, m.len() + 16, eio, k, false);
         }
+        // length prefixes no buffer can satisfy (up to usize::MAX), with small and exact scratch: an error, as on the slice path
+        if i % 4 == 1 {
+            for (j, pre) in [vec![0xFFu8, 0xFF, 0xFF, 0xFF, 0xFF, 0xFF, 0xFF, 0xFF, 0xFF, 0x01], vec![0xF0, 0xFF, 0xFF, 0xFF, 0xFF, 0xFF, 0xFF, 0xFF, 0xFF, 0x01],
+                             vec![0x80, 0x80, 0x80, 0x80, 0x80, 0x80, 0x80, 0x80, 0x80, 0x01], vec![0xFF, 0xFF, 0xFF, 0xFF, 0x0F], vec![0x09]].into_iter().enumerate() {
+                let sh = if j % 2 == 0 { Shape::Str } else { Shape::Bytes };
+                let mut m = pre.clone();
+                m.extend([b'a', b'b', b'c']);
+                io_de(&mut out, &sh, &m, sched(&mut r), None, [0usize, 3, 8, 64][(i / 4 + j) % 4], eio, 1, j % 2 == 0);
+            }
+        }
     }
     out.flush();
     eprintln!("io: {} events", out.n);
